@@ -50,7 +50,12 @@ FINISH = dict(
 )
 
 
-MODES = ["first", "forgotten", "changes", "dropped", "binding", "staggered", "errors", "amnesia"]
+MODES = ["first", "forgotten", "changes", "dropped", "binding", "staggered", "errors", "amnesia", "savefail"]
+# mode savefail: STORAGE faults at Account::save (the only write of a first round: right after the newAccount answer);
+# the last one is the control (a failing hook that is allowed to fail: the save succeeds)
+SAVEFAIL = ["pre-hook-fails", "post-hook-fails", "path-is-directory", "directory-removed", "directory-is-file",
+            "pre-hook-fails-allowed"]
+SAVE_ERROR = "unable to save account file"      # account/storage.rs: prefix of every error of storage::save
 # fixed sharing patterns (account index, endpoint index per certificate) run before the random ones
 CORNERS = {"8c-1a-1e": [(0, 0)] * 8,
            "8c-1a-3e": [(0, c % 3) for c in range(8)],
@@ -123,6 +128,11 @@ def build_scenario(rng, idx, mode, corner=None, k=0, slow=False):
             o["nonce_on_get"] = rng.random() < 0.5
     if mode == "amnesia":
         sc["amnesia"] = [AMNESIA[(3 * k + i) % len(AMNESIA)] for i in range(3)]    # two scenarios cover all five
+    if mode == "savefail":
+        # the account file cannot be written; a certificate whose attempt failed is tried again 0..2 times by the same
+        # process (the account in memory is then the one the failed attempt left)
+        sc["savefail"] = SAVEFAIL[k % len(SAVEFAIL)]
+        sc["retries"] = (k // len(SAVEFAIL) + k) % 3
     return sc
 
 
@@ -147,6 +157,21 @@ def write_cfg(root, sc, cas, contacts, key_type, eab=False):
     # hooks of the account files: Account::save runs them while the account write lock is held
     acc_hooks = [flow.recorder_hook("acc-" + t, t, log) for t in flow.HOOK_TYPES if t.startswith("file-")] \
         if sc.get("acc_hooks") else []
+    sf = sc.get("savefail")
+    if sf:
+        # the recorder runs first (one record per save that was started), then the hook that breaks the storage
+        side = "-pre-" if sf.startswith("pre-hook-fails") else "-post-" if sf == "post-hook-fails" else "none"
+        acc_hooks = [flow.recorder_hook("acc-" + t, t, log, 1, allow_failure=sf.endswith("-allowed")) if side in t else
+                     flow.recorder_hook("acc-" + t, t, log) for t in flow.HOOK_TYPES if t.startswith("file-")]
+        act = {"path-is-directory": ["mkdir", "-p", "{{ file_path }}"],
+               "directory-removed": ["sh", "-c", 'rmdir "$1" 2>/dev/null; exit 0', "sh", "{{ file_directory }}"],
+               "directory-is-file": ["sh", "-c", 'rmdir "$1" 2>/dev/null && : > "$1"; exit 0', "sh", "{{ file_directory }}"]}
+        for h in acc_hooks:       # (no snapshot of the file: the recorder does not open a path under a non-directory)
+            i = h["args"].index("--snap")
+            del h["args"][i:i + 2]
+        if sf in act:
+            acc_hooks.append({"name": "acc-break-storage", "type": ["file-pre-create", "file-pre-edit"],
+                              "cmd": act[sf][0], "args": act[sf][1:]})
     slow = sc.get("slow_hook")
     extra = [{"name": "slow-challenge", "type": ["challenge-http-01", "challenge-dns-01"], "cmd": "sh",
               "args": ["-c", "sleep %.1f" % (slow[1] / 1000.0)]}] if slow else []
@@ -269,17 +294,22 @@ def run_rounds(sc, root, helper):
                     if fn.endswith(".crt.pem"):
                         os.remove(os.path.join(cdir, fn))
             marks = [len(ca.log) for ca in cas]
+            hook_mark = len(flow.read_log(os.path.join(d, "hooks.log"))) if sc.get("savefail") else 0
             cfg_path = write_cfg(d, sc, cas, contacts, kt, eab=what in ("first-with-binding", "binding-added"))
             stagger = [120 * k for k in range(sc["ncert"])] if sc["mode"] == "staggered" else []
             stagger = sc.get("stagger", stagger)
             # (attempts that go on registering for ever keep logging lock events: there the overall bound decides)
             res = vlib.probe([{"op": "concurrent_attempts", "path": cfg_path, "threads": sc["threads"], "stagger_ms": stagger,
-                               "timeout_ms": 30000 if persistent else 60000,
+                               "retries": sc.get("retries", 0), "timeout_ms": 30000 if persistent else 60000,
                                "max_ms": 60000 if persistent else 600000}], timeout=700)[0]
             for ca, r in zip(cas, persistent):
                 ca.rules.remove(r)
             rounds.append({"what": what, "res": res, "index": len(rounds),
                            "ca_logs": [ca.log[m:] for ca, m in zip(cas, marks)],
+                           # the account-file hooks that ran in this round: [hook name, exit status]
+                           "acc_hook_recs": [[r.get("name"), r.get("exit")]
+                                             for r in flow.read_log(os.path.join(d, "hooks.log"))[hook_mark:]
+                                             if str(r.get("name", "")).startswith("acc-")] if sc.get("savefail") else None,
                            # account URL -> account key on record at the CA (whose accountDoesNotExist was it?)
                            "kid_keys": [{u: json.dumps(a["jwk"], sort_keys=True) for u, a in list(ca.accounts.items())}
                                         for ca in cas]})
@@ -317,6 +347,8 @@ def harness_clause(ctx, sc, rnd, res, robj):
     if rnd["what"] == "amnesia-persistent":
         if len(failed) < len(res["tasks"]):
             ctx.broke("harness", "attempts succeeded although every newOrder was refused", detail)
+    elif sc["mode"] == "savefail":
+        savefail_clause(ctx, sc, rnd, res, name, failed, detail)
     elif sc["mode"] == "dropped" or rnd["what"] not in FAIL_FREE_ROUNDS:
         pass
     elif sc["mode"] == "errors":
@@ -329,8 +361,46 @@ def harness_clause(ctx, sc, rnd, res, robj):
         ctx.broke("harness", "attempts succeeded although their CA needs more polls than DEFAULT_POOL_NB_TRIES", detail)
 
 
+def savefail_clause(ctx, sc, rnd, res, name, failed, detail):
+    """Mode savefail: exactly the attempts that ran into the failing Account::save may fail.  Which ones is read from the
+    records: the account's file hooks (the recorder runs first in every save) say how many saves were started and how
+    many of them could not succeed, the CA log says how many registrations were answered (every one is followed by one
+    save and nothing else writes the account in a first round), the attempts say which of them ended on the save."""
+    recs = rnd.get("acc_hook_recs") or []
+    started = sum(1 for n, _ in recs if "-pre-" in n)
+    sf = sc["savefail"]
+    # saves that cannot have succeeded: a hook that is not allowed to fail exited 1 / the path was made unusable
+    broken = 0 if sf.endswith("-allowed") else sum(1 for n, x in recs if x) if "hook-fails" in sf else started
+    registered = 0
+    for log in rnd["ca_logs"]:
+        new_account = {r["gidx"] for r in log if r["kind"] == "req" and r["rk"] == "newAccount"}
+        registered += sum(1 for e in log if e["kind"] == "ans" and e["for"] in new_account and e.get("status") in (200, 201))
+    tries = [(name[r["task"]], e) for r in res["results"] for e in (r.get("errors") or ([r["error"]] if not r["ok"] else []))]
+    on_save = [c for c, e in tries if SAVE_ERROR in str(e)]
+    ctx.count("savefail:%s" % sf)
+    ctx.count("savefail:retries=%d" % sc.get("retries", 0))
+    ctx.count("savefail:saves-started", started)
+    ctx.count("savefail:saves-that-could-not-succeed", broken)
+    ctx.count("savefail:attempts-ended-by-the-failing-save", len(on_save))
+    ctx.count("savefail:attempts-failed-then-succeeded", sum(1 for r in res["results"] if r["ok"] and r.get("errors")))
+    detail = dict(detail, acc_hook_recs=recs, registered=registered)
+    exp = expected_failures(sc)
+    other = sorted({c for c, e in tries if SAVE_ERROR not in str(e)} - exp)
+    if started != registered:
+        ctx.broke("harness", "%d registrations were answered, %d account saves were started" % (registered, started), detail)
+    elif len(on_save) != broken:
+        ctx.broke("harness", "%d saves could not succeed (%s), %d attempts ended on the save" % (broken, sf, len(on_save)), detail)
+    elif other:
+        ctx.broke("harness", "attempts failed against a conforming CA, not on the account save: %s" % other, detail)
+    elif exp - failed:
+        ctx.broke("harness", "attempts succeeded although their CA needs more polls than DEFAULT_POOL_NB_TRIES", detail)
+    elif sc.get("retries", 0) >= 1 and failed - exp:
+        # the save fails once per registration: the second try finds the account registered
+        ctx.broke("harness", "attempts failed again when tried again: %s" % sorted(failed - exp), detail)
+
+
 SC_KEYS = ("idx", "mode", "ncert", "nacc", "nep", "certs", "threads", "delay",
-           "corner", "ca", "stagger", "slow_hook", "acc_hooks", "amnesia")
+           "corner", "ca", "stagger", "slow_hook", "acc_hooks", "amnesia", "savefail", "retries")
 
 
 def judge_round(ctx, sc, rnd):
@@ -423,6 +493,9 @@ def plan_scenarios(rng, quick):
         first = rng.choice(names)
         for corner in ([first, rng.choice([c for c in names[:3] if c != first])] if quick else names):
             add(mode, corner)
+        if mode == "savefail" and quick:     # (one round each:) every kind of storage fault also in the quick tier
+            for corner in names[:3] + [rng.choice(names[:5])]:
+                add(mode, corner)
     off = rng.randrange(len(MODES)) if quick else 0
     for i in range(6 if quick else 192):
         add(MODES[(i + off) % len(MODES)], slow=i == (MODES[off] == "errors"))
@@ -449,7 +522,7 @@ def count_inputs(ctx, sc):
         for ms in sc["stagger"]:
             ctx.count("stagger_ms:%d" % ms)
     ctx.count("slow-challenge-hook-ms:%s" % (sc["slow_hook"][1] if sc["slow_hook"] else "none"))
-    ctx.count("account-file-hooks:%s" % sc["acc_hooks"])
+    ctx.count("account-file-hooks:%s" % (sc["acc_hooks"] or bool(sc.get("savefail"))))
     ctx.count("attempts-that-must-give-up", len(expected_failures(sc)))
 
 
